@@ -63,7 +63,7 @@ func (v *Reader) Seek(offset int) {
 }
 
 func (v *Reader) Read(length int) string {
-	if v.offset+length-1 >= v.size {
+	if length == 0 || v.offset+length-1 >= v.size {
 		return ""
 	}
 	currentString := make([]byte, length)
@@ -78,7 +78,7 @@ func (v *Reader) Read(length int) string {
 }
 
 func (v *Reader) ReadAt(length int, offset int) string {
-	if offset+length-1 >= v.size {
+	if length == 0 || offset+length-1 >= v.size {
 		return ""
 	}
 	currentString := make([]byte, length)
